@@ -36,8 +36,14 @@ def perm(run, f, loop_form):
 def check(run):
     repo = run.repo
     # density_matrix enumerates the stabilizer group through binary_repr (all 2^(N-r) selectors, every bit column)
-    from .C19 import bits_rule
+    from .C19 import bits_rule, combine_site
     bits_rule(run, repo)
+    for rel_ in (K.PY_S, K.TC_S):
+        combine_site(run, repo, repo.func(rel_, 'StabilizerState.density_matrix'))     # strings and signs of the same active rows
+    # stabilizer_state parses its input through paulis(): the one reader, signs included
+    from .C20 import second_readers
+    for prel_ in (K.PY_P, K.TC_P):
+        second_readers(run, repo, prel_, {0: 4, 2: 5, 1: 6, 3: 7})
     types = K.types_of(repo)
     for rel, loop_form in ((K.PY_U, True), (K.TC_U, False)):
         m2s, s2m = repo.func(rel, 'map_to_state'), repo.func(rel, 'state_to_map')
